@@ -9,8 +9,8 @@ RULE = ("trees are enumerated by TLC as sequences of public operations (MC_Eleme
 
 
 def run(tier, rep):
-    pools = ["case", "separators", "concat", "shadow", "keywords", "prefixed", "nonascii", "depth", "underscore", "fields", "fields2", "xmlnsish", "attrcase", "kwsibling", "suffixlit"]
-    pools += ["digits", "caseruns"] + rc.keyword_pools(tier)
+    pools = ["case", "separators", "concat", "shadow", "keywords", "prefixed", "nonascii", "depth", "underscore", "fields", "fields2", "xmlnsish", "attrcase", "kwsibling", "kwparent", "suffixlit"]
+    pools += ["digits", "caseruns", "digitlocal"] + rc.keyword_pools(tier)
     rc.render_pools(rep, "C04", tier, pools, rc.C04_TAGS, limit=600 if tier == "quick" else 15000)
     rc.random_trees(rep, "C04", tier, rc.C04_TAGS, n=300 if tier == "quick" else 5000)
     rc.random_trees(rep, "C04", tier, rc.C04_TAGS, pool=["a", "b", "c", "d"], remove=0, mode="paths", pool_all=True,
